@@ -2,14 +2,14 @@ SPECIFICATION Spec
 CONSTANTS
   Replicas = {1, 2, 3}
   Pool <- MCPool
-  PoolSize = 8
+  PoolSize = 9
   Limit = 3
   MaxDepth = 0
   MaxLevel = 3
   InitBases <- MCInitBases
-  Crafts <- CraftsQuick
+  Crafts <- CraftsSim
   Perms = {"owner", "writer", "anyone"}
-  Thirds = {"same", "perm", "addr"}
+  Thirds = {"same", "perm", "addr", "owner"}
 VIEW MCView
 CONSTRAINT LevelBound
 INVARIANTS MergeCommutes MergeAssoc MergeIdem Converge ClosureModKnown
